@@ -331,7 +331,7 @@ def _from_bits(rng, kind, force):
 
 @op('np_is_zero_public', ['int', 'f11', 'f101', 'fM'])
 def _izp(rng, kind, force):
-    s = rshape(rng, mindim=1)     # 0-D: result has shape (1,) (finding np_is_zero_public_0d_shape, directed input below)
+    s = rshape(rng)
     a = rvals(rng, kind, s, 'tiny' if kind == 'int' else 'small')
     if a.size and rng.random() < 0.7:
         a.reshape(-1)[rng.randrange(a.size)] = 0
@@ -1612,10 +1612,8 @@ def _x_fixed_div(rng, kind, force):
             'desc': 'SecFld(101).array([3,4]) / SecFld(101)(2)', 'key': 'x_fixed_div'}
 
 
-@directed('x_np_is_zero_public_0d', 'int')
+@directed('x_fixed_np_is_zero_public_0d', 'int')
 def _x_izp(rng, kind, force):
     return {'inputs': {'a': np.array(0, dtype=object)}, 'call': lambda mpc, S, X: _Awaited(mpc.np_is_zero_public(X['a'])),
             'ref': lambda P: np.array(1, dtype=object),
-            # r = _np_randoms(field, 1) has shape (1,), a * r broadcasts the 0-D input to (1,)
-            'finding_key_numpy': 'np_is_zero_public_0d_shape',
             'desc': 'mpc.np_is_zero_public(SecInt(24).array(np.array(0)))', 'key': 'x_izp'}
